@@ -25,7 +25,9 @@ Ordered(S) == SX2!SetToSortSeq(S, SeqLess)
 SubjectSets == [abc2 |-> Ordered(Words(Abc, 2)), abc3 |-> Ordered(Words(Abc, 3)), abc4 |-> Ordered(Words(Abc, 4)), abc5 |-> Ordered(Words(Abc, 5)),
                 aAb4 |-> Ordered(Words({97, 65, 98}, 4)),                \* both cases of one letter: case-insensitive backreferences
                 cls1 |-> Ordered(Words(ClsAlpha, 1)), cls2 |-> Ordered(Words(ClsAlpha, 2)),
-                mix2 |-> Ordered(Words(Mix, 2)), mix3 |-> Ordered(Words(Mix, 3)), mix4 |-> Ordered(Words(Mix, 4))]
+                mix2 |-> Ordered(Words(Mix, 2)), mix3 |-> Ordered(Words(Mix, 3)), mix4 |-> Ordered(Words(Mix, 4)),
+                \* leftmost-search family: long words over two letters (occurrences of a literal word overlap), each also followed by c
+                ab6c |-> Ordered(Words({97, 98}, 6) \cup {Append(w, 99) : w \in Words({97, 98}, 6)})]
 SubjectsOf(name) == SubjectSets[name]
 
 \* ---------------- pattern space ----------------------------------------------------------------
@@ -114,6 +116,33 @@ ClsItemSeqs == {<<p>> : p \in ClsMembers} \cup {<<p, q>> : p \in ClsMembers, q \
 ClsOf(t) == IF t.t = "rep" THEN t.x[1] ELSE t
 ClsTrees == LET cs == {Cls(neg, its) : neg \in BOOLEAN, its \in ClsItemSeqs}
             IN IF Quick THEN cs ELSE cs \cup {Rep(c, 1, -1, TRUE) : c \in cs}
+\* leftmost-search family ("lead").  exec tries the start positions 0, 1, 2, ... in order, EVERY one of them: the match is the first
+\* position at which the whole pattern succeeds.  The dimension is what the pattern opens with - a literal WORD of 2..4 letters (all
+\* words over {a, b}: with and without a border, i.e. occurrences that overlap themselves: aa, aba, abab, aab ...) - x what FOLLOWS it
+\* (a tail that can fail where the word occurs: anchors, boundaries, classes, lookarounds, a group, an optional, an alternation) x how
+\* the word is reached (bare at the start; inside a group; as one alternative; behind a star, a dot, ^).  Subjects ({a,b}^<=6, each also
+\* followed by c) are long enough for two or three overlapping occurrences, so a failed attempt at one occurrence is followed by a successful one that overlaps it.
+RECURSIVE WordAst(_)
+WordAst(w) == IF Len(w) = 1 THEN Chr(w[1]) ELSE Cat(Chr(w[1]), WordAst(Tail(w)))
+LeadWords == {w \in Words({97, 98}, 4) : Len(w) >= 2}                                                                       \* 28
+LeadTail(k) == CASE k = 1 -> Eol                              [] k = 2 -> Wb                                [] k = 3 -> La(TRUE, Chr(97))
+                 [] k = 4 -> Cls(FALSE, <<Rng(98, 99)>>)      [] k = 5 -> Grp(0, Chr(99))                   [] k = 6 -> Cat(Rep(Chr(98), 0, 1, TRUE), Chr(99))
+                 [] k = 7 -> ClsNotA                          [] k = 8 -> Cat(AnyC, Eol)                    [] k = 9 -> Lb(TRUE, Cat(Chr(98), Chr(97)))
+                 [] k = 10 -> Cat(Rep(Chr(99), 0, -1, TRUE), Eol) [] k = 11 -> Ncg(Alt(Chr(98), Chr(99)))   [] k = 12 -> Nwb
+LeadTails == 1..12
+LeadHead(h, w, t) == CASE h = 1 -> Cat(w, t)                                      [] h = 2 -> Cat(Grp(0, w), t)
+                       [] h = 3 -> Cat(Ncg(Alt(w, Chr(99))), t)                   [] h = 4 -> Cat(Rep(Chr(98), 0, -1, TRUE), Cat(w, t))
+                       [] h = 5 -> Cat(AnyC, Cat(w, t))                           [] h = 6 -> Cat(Bol, Cat(w, t))
+LeadHeads == 1..6
+\* quick: the bare word with every word and every tail; the other heads on representative words (border / no border, 2 and 3 letters) and tails
+LeadGrid == IF Quick THEN {<<1, w, t>> : w \in LeadWords, t \in LeadTails}
+                          \cup {<<h, w, t>> : h \in LeadHeads, w \in {<<97, 97>>, <<97, 98>>, <<97, 98, 97>>, <<97, 97, 98>>}, t \in {1, 4, 5, 6}}
+            ELSE LeadHeads \X LeadWords \X LeadTails
+ASSUME {g[1] : g \in LeadGrid} = LeadHeads /\ {g[2] : g \in LeadGrid} = LeadWords /\ {g[3] : g \in LeadGrid} = LeadTails    \* the sub-grid keeps every class
+LeadTreesOf(t) == {Renumber(LeadHead(g[1], WordAst(g[2]), LeadTail(g[3]))) : g \in {x \in LeadGrid : x[3] = t}}
+LeadSubs == "ab6c"
+LeadISubs == "aAb4"
+LeadFlags(t) == IF Quick /\ t \notin {1, 4, 5} THEN {NoFlags} ELSE {NoFlags, Flags(TRUE, FALSE, FALSE)}
 \* families given as explicit tree sets: [name, trees, flag sets, subject set without / with the i flag].  A family is cut into parts
 \* (one record per part, same name) only so that TLC's workers share the enumeration and the laws: the union is what is stated above.
 BrefSubs == IF Quick THEN "abc4" ELSE "abc5"
@@ -125,6 +154,7 @@ SpecialFamilies ==
   \o SX2!SetToSeq({SFam("brefk", BrefKOf(b), {NoFlags, IFlag}, BrefSubs, "aAb4") : b \in BrefBodies})
   \o SX2!SetToSeq({SFam("resetw", {t \in ResetWTrees : <<t.min, t.max, t.g>> = q}, {NoFlags}, "abc4", "aAb4") : q \in ResetQuants} \ {SFam("resetw", {}, {NoFlags}, "abc4", "aAb4")})
   \o SX2!SetToSeq({SFam("cls", {t \in ClsTrees : ClsOf(t).neg = neg /\ ClsOf(t).items[1] = p}, {NoFlags, IFlag}, "cls2", "cls2") : neg \in BOOLEAN, p \in ClsMembers})
+  \o SX2!SetToSeq({SFam("lead", LeadTreesOf(t), LeadFlags(t), LeadSubs, LeadISubs) : t \in LeadTails})
 
 \* flag sets worth trying on a tree: a flag is added only where a node it acts on occurs
 HasLetters(a) == Kinds(a) \cap {"chr", "cls", "bref"} # {}
@@ -149,12 +179,15 @@ UsedSubjectSets == {Families[k].subs : k \in 1..Len(Families)}
 \* ---------------- Enum ------------------------------------------------------------------------
 VARIABLES ph, cur, rec_i
 vars == <<ph, cur, rec_i>>
+\* development aid: C09_ONLY=<family> restricts the enumeration to one family (the check itself never sets it)
+OnlyFam == IF "C09_ONLY" \in DOMAIN IOEnv THEN IOEnv.C09_ONLY ELSE ""
 EnumInit == ph = "start" /\ cur = <<>> /\ rec_i = 0
 PickFamily == /\ ph = "start"
               /\ \/ \E k \in 1..Len(Families) : \E top \in 0..18 :
+                      /\ OnlyFam \in {"", Families[k].name}
                       /\ TreesTop(Families[k].n, Families[k].atoms, Families[k].us, top) # {}
                       /\ ph' = "fam" /\ cur' = [k |-> k, top |-> top] /\ UNCHANGED rec_i
-                 \/ \E j \in 1..Len(SpecialFamilies) : ph' = "fam" /\ cur' = [k |-> 0, top |-> j] /\ UNCHANGED rec_i    \* explicit tree sets
+                 \/ \E j \in 1..Len(SpecialFamilies) : OnlyFam \in {"", SpecialFamilies[j].name} /\ ph' = "fam" /\ cur' = [k |-> 0, top |-> j] /\ UNCHANGED rec_i    \* explicit tree sets
                  \/ \E nm \in UsedSubjectSets : ph' = "subs" /\ cur' = [kind |-> "subs", name |-> nm, list |-> SubjectsOf(nm)] /\ UNCHANGED rec_i
 EmitPattern == /\ ph = "fam"
                /\ IF cur.k = 0
